@@ -122,6 +122,102 @@ def rule_e4(chk, prog, em, tool, seen):
     return n
 
 
+def _known_nonpositive(f, v, b):
+    """on the way to block b (where v is selected as the return value) a test  v > 0  has failed"""
+    facts = list(f.guards_at(b))
+    t = b.term
+    if t.op == "br" and len(t.x["succ"]) == 2:
+        for k, s_ in enumerate(t.x["succ"]):
+            if any(i.op in ("phi", "ret") for i in s_.insts):
+                facts.append((t.ops[0], k == 0, t))
+    for (c, outcome, br) in facts:
+        if c.is_inst and c.op == "icmp" and strip_casts(c.ops[0]) is v and c.ops[1].is_const and c.ops[1].is_int and c.ops[1].sval == 0:
+            if (c.pred == "sgt" and outcome is False) or (c.pred == "sle" and outcome is True) or \
+                    (c.pred == "eq" and outcome is True) or (c.pred == "slt" and outcome is True):
+                return True
+    return False
+
+
+def tristate_functions(prog, em):
+    """ERR functions whose non-zero results have two meanings: negative = error, positive = a regular answer
+    (end of input, 'differs', ...).  Fix-point: returning the result of such a function makes the caller one."""
+    T = set()
+    cand = [f for f in prog.functions() if not f.decl and f.ret in ("i32", "i64") and f in em.err]
+    changed = True
+    while changed:
+        changed = False
+        for f in cand:
+            if f in T:
+                continue
+            f.build()
+            neg = pos = False
+            for v, b in ret_sources(f):
+                w = strip_casts(v)
+                if w.is_const and w.is_int:
+                    if w.sval < 0:
+                        neg = True
+                    elif w.sval > 0:
+                        pos = True
+                elif w.is_inst and w.op == "call":
+                    ts, _ok = prog.call_targets(w)
+                    ts = [t for t in ts if not isinstance(t, ExternFn)]
+                    if ts and all(t in T for t in ts):
+                        neg = True
+                        if not _known_nonpositive(f, w, b):
+                            pos = True
+                    elif em.call_is_err(w):
+                        neg = True
+            if neg and pos:
+                T.add(f)
+                changed = True
+    return T
+
+
+def rule_e5(chk, prog, em, tool, seen):
+    """E5: the result of a tri-state function is not collapsed to equal / not-equal zero: somewhere the negative range
+    is told apart (signed comparison), or the value is handed on unchanged (returned, stored, passed)"""
+    T = tristate_functions(prog, em)
+    n = 0
+    for f in prog.functions():
+        for c in f.calls():
+            ts, _ok = prog.call_targets(c)
+            ts = [t for t in ts if not isinstance(t, ExternFn)]
+            if not ts or not all(t in T for t in ts):
+                continue
+            key = (f.unit.src, f.name, c.line, c.col)
+            if key in seen:
+                continue
+            seen.add(key)
+            n += 1
+            chk.analysed(f)
+            carriers, work = {id(c): c}, [c]
+            while work:
+                v = work.pop()
+                for u in f.uses.get(v, []):
+                    if u.op in ("phi", "sext", "zext", "trunc", "select") and id(u) not in carriers:
+                        carriers[id(u)] = u
+                        work.append(u)
+            told = False
+            eqonly = None
+            for v in carriers.values():
+                for u in f.uses.get(v, []):
+                    if u.op == "icmp":
+                        if u.pred in ("slt", "sgt", "sle", "sge"):
+                            told = True
+                        else:
+                            eqonly = u
+                    elif u.op in ("ret", "store", "call", "switch"):
+                        told = True
+            callee = norm_callee(c.callee) or ("%s.%s" % slot_call(c) if slot_call(c) else "indirect")
+            inst = "%s->%s" % (f.name, callee)
+            if told or eqonly is None:
+                chk.ok("E5", inst, c, "negative (error) and positive results are told apart or the value is handed on", nontrivial=told)
+            else:
+                chk.violation("E5", inst, eqonly, "%s answers <0 for an error and >0 for a regular outcome, but its result is only "
+                              "compared for (in)equality with zero: an I/O error is taken for the regular non-zero answer" % callee)
+    return n
+
+
 def rule_e2(chk, prog, em, tool, seen):
     """error turned into success: on the edge where an error result is non-zero the function returns constant 0
     through unconditional branches only, without any call in between (nothing stored, nothing reported)"""
@@ -596,7 +692,7 @@ def run(chk):
         "sqfs_writer_finish, cleanup unlinks on failure; all four mains: exit status 0 unreachable from every failure "
         "edge; submit failures propagate.")
     chk.assumptions = ["that the handling of a consumed error is *right* is not decided, only that the error reaches a decision"]
-    seen1, seen2, seen3, seen4, seen5 = set(), set(), set(), set(), set()
+    seen1, seen2, seen3, seen4, seen5, seen6 = set(), set(), set(), set(), set(), set()
     n1 = n3 = 0
     for tool in TOOLS:
         prog = load_program(tool)
@@ -604,6 +700,7 @@ def run(chk):
         n1 += rule_e1(chk, prog, em, tool, seen1)
         rule_e2(chk, prog, em, tool, seen2)
         rule_e4(chk, prog, em, tool, seen5)
+        rule_e5(chk, prog, em, tool, seen6)
         n3 += rule_e3(chk, prog, tool, seen3)
         rule_cleanup(chk, prog, tool)
         if tool == "gensquashfs":
@@ -618,6 +715,7 @@ def run(chk):
     chk.floor("E2", 250)
     chk.floor("E3", 120)
     chk.floor("E4", 60)
+    chk.floor("E5", 15)
     chk.floor("K1-cleanup", 6)
     chk.floor("K1-status", 4)
     chk.floor("E1-submit", 1)
